@@ -19,10 +19,6 @@
 package bfe_http2
 
 import (
-	"strings"
-)
-
-import (
 	http "github.com/bfenetworks/bfe/bfe_http"
 )
 
@@ -91,5 +87,29 @@ func lowerHeader(v string) string {
 	if s, ok := commonLowerHeader[v]; ok {
 		return s
 	}
-	return strings.ToLower(v)
+	return asciiToLower(v)
+}
+
+// asciiToLower lower-cases the letters A-Z only. strings.ToLower also maps
+// non-ASCII runes (U+212A KELVIN SIGN becomes "k"), which turned an invalid
+// header field name such as "\u212Aeep-Alive" into the valid, connection
+// specific name "keep-alive" after the HopHeaders filter had been passed.
+func asciiToLower(s string) string {
+	hasUpper := false
+	for i := 0; i < len(s); i++ {
+		if 'A' <= s[i] && s[i] <= 'Z' {
+			hasUpper = true
+			break
+		}
+	}
+	if !hasUpper {
+		return s
+	}
+	b := []byte(s)
+	for i, c := range b {
+		if 'A' <= c && c <= 'Z' {
+			b[i] = c + ('a' - 'A')
+		}
+	}
+	return string(b)
 }
